@@ -109,19 +109,21 @@ func parseVersion2(reader *bufio.Reader) (header *Header, err error) {
 		state.ProxyErrInvalidHeader.Inc(1)
 		return nil, ErrUnsupportedProtocolVersionAndCommand
 	}
-	// If command is LOCAL, header ends here
-	if header.Command.IsLocal() {
-		return header, nil
-	}
-
 	// Read the 14th byte, address family and protocol
 	b14, err := reader.ReadByte()
+	if err == io.EOF && header.Command.IsLocal() {
+		// legacy short form: the stream ends right after the LOCAL command byte, nothing follows
+		return header, nil
+	}
 	if err != nil {
 		state.ProxyErrReadHeader.Inc(1)
 		return nil, ErrCantReadAddressFamilyAndProtocol
 	}
 	header.TransportProtocol = AddressFamilyAndProtocol(b14)
-	if _, ok := supportedTransportProtocol[header.TransportProtocol]; !ok {
+	// If command is LOCAL, the sender should use the UNSPEC family; the receiver must skip
+	// the address block and use the real connection endpoints (spec 2.2)
+	if _, ok := supportedTransportProtocol[header.TransportProtocol]; !ok &&
+		!(header.Command.IsLocal() && header.TransportProtocol == UNSPEC) {
 		state.ProxyErrInvalidHeader.Inc(1)
 		return nil, ErrUnsupportedAddressFamilyAndProtocol
 	}
@@ -133,7 +135,7 @@ func parseVersion2(reader *bufio.Reader) (header *Header, err error) {
 		return nil, ErrCantReadLength
 	}
 
-	if !header.validateLength(length) {
+	if !header.Command.IsLocal() && !header.validateLength(length) {
 		state.ProxyErrInvalidHeader.Inc(1)
 		return nil, ErrInvalidLength
 	}
@@ -147,7 +149,9 @@ func parseVersion2(reader *bufio.Reader) (header *Header, err error) {
 	payloadReader := io.LimitReader(reader, int64(length))
 
 	// Read addresses and ports
-	if header.TransportProtocol.IsIPv4() {
+	if header.Command.IsLocal() {
+		// nothing to read: the whole block is drained below
+	} else if header.TransportProtocol.IsIPv4() {
 		var addr _addr4
 		if err := binary.Read(payloadReader, binary.BigEndian, &addr); err != nil {
 			state.ProxyErrReadHeader.Inc(1)
@@ -217,6 +221,8 @@ func (header *Header) writeVersion2(w io.Writer) (int64, error) {
 		}()
 		buf.Write(portDstBytes)
 
+	} else {
+		buf.Write([]byte{UNSPEC, 0, 0})
 	}
 
 	return buf.WriteTo(w)
